@@ -2,7 +2,7 @@
 From Verif Require Import Common.Base.
 From Verif Require Import Generated.C15Recv Generated.C15GrpcExp Generated.C15HttpExp Generated.C15StatusUtil.
 From Verif Require Import Generated.C15Shutdown Generated.C15RecvHttpGraph.
-From Verif Require Import C15.Model C15.Proofs C15.Properties.
+From Verif Require Import C15.Model C15.Proofs C15.PropCheck C15.Link C15.Properties.
 Local Open Scope Z_scope.
 
 (* the codec contract of hop_delivers is satisfiable: the identity codec on payloads = item counts *)
@@ -142,3 +142,22 @@ Example well_formed_request_example :
   client_error (mkReq AuthOK EncGood true CtJson (Some 4%N)) = false /\
   recv_http (mkReq AuthOK EncGood true CtJson (Some 4%N)) PlainErr = (true, mkResp 503 None (Some 14)).
 Proof. vm_compute. split; reflexivity. Qed.
+
+(* the link theorems are not vacuous: raw cases of every kind, observation := the model's own output, pass the checker;
+   a wrong observation does not *)
+Definition self_check (c : nat * (list Z * list Z)) : bool :=
+  match model_out c with Some m => prop_ok (fst c, (fst (snd c), m)) | None => false end.
+
+Example model_cases_pass_the_checker :
+  forallb self_check
+    [(8%nat, ([0; 0; 3; 3; 8; 1; 1500000000; 0; 2; 1; 0; 0; 1], []));
+     (8%nat, ([2; 1; 4; 4; 0; 1; 5000000000; 1; 3; 5; 1; 3; 200], []));
+     (8%nat, ([1; 2; 2; 0; 0; 0; 0; 0; 0; 0; 0; 0; 0], []));
+     (10%nat, ([0; 1; 3; 2; 0; 0; 0; 0; 1], [])); (10%nat, ([2; 2; 3; 0; 0; 0; 0; 0; 1], []));
+     (11%nat, ([1; 2500; 60000; 3800; 4; 0; 0; 0; 0; 0; 0], [])); (11%nat, ([2; 0; 1200; 2600; 4; 0; 0; 0; 0; 0; 0], []));
+     (7%nat, ([0; 4; 1; 0; 3; 0; 0; 0; 0; 0], [])); (7%nat, ([1; 0; 1; 1; 2; 3; 8; 1; 7000000000; 2], []));
+     (9%nat, ([2; 3; 0; 0; 0; 0; 0], [])); (9%nat, ([0; 2; 3; 14; 1; 2000000000; 0], []));
+     (0%nat, ([4; 0; 1; 2000000000; 1], [])); (3%nat, ([8; 1; 1500000000], [])); (6%nat, ([503; 1; 7; 1], []))] = true /\
+  prop_ok (8%nat, ([0; 0; 3; 0; 0; 0; 0; 0; 2; 1; 0; 0; 1], [1; 2; 0; 14; 1; 1])) = false /\
+  encodable (CustomStatus (Some 0) (Some 5) WPermanent).
+Proof. vm_compute. repeat split. discriminate. Qed.
